@@ -94,6 +94,7 @@ class _DeviceManagementConnection(ABC):
         "_data_endpoint_addr",
         "_disconnect_callback",
         "_heartbeat",
+        "_matches",
         "_pending",
         "_request_lock",
         "communication_channel",
@@ -123,6 +124,7 @@ class _DeviceManagementConnection(ABC):
         self.sequence_number = 0
         self._data_endpoint_addr: tuple[str, int] | None = None
         self._disconnect_callback: KNXIPTransport.Callback | None = None
+        self._matches: Callable[[CEMIFrame], bool] | None = None
         self._pending: asyncio.Future[CEMIFrame] | None = None
         self._request_lock = asyncio.Lock()
         self._heartbeat = ConnectionHeartbeat(
@@ -329,27 +331,15 @@ class _DeviceManagementConnection(ABC):
                 asyncio.get_running_loop().create_future()
             )
             self._pending = pending
+            # applied where a frame is received: a frame that is not the answer
+            # never takes the place of the one that is
+            self._matches = matches
             try:
                 await self._send_request(cemi)
                 # The spec defines this timeout for the acknowledgement only;
                 # reusing it as the answer deadline is merely a sensible choice.
                 async with asyncio.timeout(DEVICE_CONFIGURATION_REQUEST_TIMEOUT):
-                    while True:
-                        answer = await pending
-                        if matches is None or matches(answer):
-                            return answer
-                        logger.debug(
-                            "Discarding cEMI frame not answering the request: %s",
-                            answer,
-                        )
-                        pending = asyncio.get_running_loop().create_future()
-                        self._pending = pending
-                        if self.communication_channel is None:
-                            # closed before this task got to run again: `_stop()`
-                            # found only the already answered future to cancel
-                            raise CommunicationError(
-                                "Device management connection was closed."
-                            )
+                    return await pending
             except TimeoutError:
                 raise CommunicationError(
                     f"No answer to {cemi.code} within "
@@ -366,6 +356,7 @@ class _DeviceManagementConnection(ABC):
                 raise
             finally:
                 self._pending = None
+                self._matches = None
 
     def _cemi_received(self, raw_cemi: bytes) -> None:
         """Handle a cEMI frame the server sent."""
@@ -391,7 +382,16 @@ class _DeviceManagementConnection(ABC):
                     logger.exception("Unexpected error in indication_callback")
             return
         if self._pending is not None and not self._pending.done():
-            self._pending.set_result(cemi)
+            try:
+                answers = self._matches is None or self._matches(cemi)
+            except Exception as err:  # pylint: disable=broad-exception-caught
+                # raised where the request is awaited, not in the transport's callback
+                self._pending.set_exception(err)
+                return
+            if answers:
+                self._pending.set_result(cemi)
+            else:
+                logger.debug("Discarding cEMI frame not answering the request: %s", cemi)
             return
         logger.debug("Received an unexpected cEMI frame: %s", cemi)
 
